@@ -72,3 +72,50 @@ def c05_invert_comparison_is_negation(opi: int, c: int, x: int) -> bool:
     mb = MemoryBuilder.__new__(MemoryBuilder)
     inv_op, inv_c = mb._invert_comparison(op, c)
     return inv_op in OPS and _cmp(inv_op, x, inv_c) == (not _cmp(op, x, c))
+
+
+# ---------------------------------------------------------------------------------------------
+#  C10: CSE expression key - equal keys must imply equal operator, operands, output type and output mode
+# ---------------------------------------------------------------------------------------------
+from dsl_compiler.src.ir.nodes import IRArith, IRDecider  # noqa: E402
+from dsl_compiler.src.ir.optimizer import CSEOptimizer  # noqa: E402
+
+_TYPES = ["signal-A", "signal-B", "iron-plate"]
+_AOPS = ["+", "-", "*", "/", "%", "AND"]
+
+
+def _mk_decider(opi: int, left: int, right: int, outv: int, ti: int, copy: bool) -> IRDecider:
+    d = IRDecider("n", _TYPES[ti])
+    d.test_op = OPS[opi]
+    d.left, d.right, d.output_value, d.copy_count_from_input = left, right, outv, copy
+    return d
+
+
+def c10_cse_key_injective_decider(o1: int, l1: int, r1: int, v1: int, t1: int, c1: bool, o2: int, l2: int, r2: int, v2: int, t2: int, c2: bool) -> bool:
+    """
+    pre: 0 <= o1 < 6 and 0 <= o2 < 6 and 0 <= t1 < 3 and 0 <= t2 < 3
+    pre: -2 <= l1 <= 2 and -2 <= l2 <= 2 and -2 <= r1 <= 2 and -2 <= r2 <= 2 and 0 <= v1 <= 2 and 0 <= v2 <= 2
+    post: _
+    """
+    cse = CSEOptimizer()
+    k1 = cse._make_key(_mk_decider(o1, l1, r1, v1, t1, c1))
+    k2 = cse._make_key(_mk_decider(o2, l2, r2, v2, t2, c2))
+    same = (o1, l1, r1, v1, t1, c1) == (o2, l2, r2, v2, t2, c2)
+    return (k1 != k2) or same
+
+
+def c10_cse_key_injective_arith(o1: int, l1: int, r1: int, t1: int, o2: int, l2: int, r2: int, t2: int) -> bool:
+    """
+    pre: 0 <= o1 < 3 and 0 <= o2 < 3 and 0 <= t1 < 2 and 0 <= t2 < 2
+    pre: 0 <= l1 <= 1 and 0 <= l2 <= 1 and 0 <= r1 <= 1 and 0 <= r2 <= 1
+    post: _
+    """
+    cse = CSEOptimizer()
+
+    def mk(o, l, r, t):
+        a = IRArith("n", _TYPES[t])
+        a.op, a.left, a.right = _AOPS[o], l, r
+        return a
+
+    k1, k2 = cse._make_key(mk(o1, l1, r1, t1)), cse._make_key(mk(o2, l2, r2, t2))
+    return (k1 != k2) or (o1, l1, r1, t1) == (o2, l2, r2, t2)
